@@ -92,7 +92,9 @@ pub fn emit_step<T: Sc>(out: &mut Out, cid: &str, prop: &str, target: &AnyTarget
     let hx = |v: &[f64]| v.iter().map(|x| T::from64(*x).hex()).collect::<Vec<_>>().join(" ");
     let dirs: Vec<f64> = tr.doublings.iter().map(|d| d.0).collect();
     let acc: Vec<f64> = tr.doublings.iter().map(|d| d.4).collect();
-    let with_stat = prop == "C03";
+    // the acceptance statistic is compared except for the HalfLine target (its autodiff gradient through `mask_fill`
+    // differs from the closed-form continuation outside the support, which turns a NaN joint into -inf or back)
+    let with_stat = prop == "C03" || !matches!(target, AnyTarget::HalfLine { .. });
     let case = format!(
         "{} {cid} {} {} ; {} ; {} ; {} ; {} ; {} ; {} ; {}",
         if with_stat { "c03" } else { "c03x" },
@@ -160,10 +162,20 @@ where
     T: rand_distr::uniform::SampleUniform + num_traits::FromPrimitive,
 {
     let id = out.fresh_id("nt");
-    let family = *rng.pick(&[0u64, 0, 1, 2, 3, 3, 3, 4, 5, 8, 8]);
-    let dim0 = if family == 8 { rng.range(1, 3) as usize } else { rng.range(1, 8) as usize };
-    let (target, dim) = random_target(rng, family, dim0);
-    let start: Vec<f64> = (0..dim).map(|_| rng.normal() * 0.8 + if family == 1 || family == 2 { 0.6 } else { 0.0 }).collect();
+    // families 7 / 9: NaN outside the support (log / sqrt of a negative argument); 10: a huge additive constant
+    let family = *rng.pick(&[0u64, 0, 1, 2, 3, 3, 3, 4, 5, 8, 8, 7, 9, 9, 10, 10]);
+    let dim0 = if matches!(family, 7 | 8 | 9) { rng.range(1, 3) as usize } else { rng.range(1, 8) as usize };
+    let (mut target, dim) = random_target(rng, family, dim0);
+    if let AnyTarget::GaussOff { off, .. } = &mut target {
+        *off *= if T::NAME == "f32" { rng.log_uniform(10.0, 200.0) } else { rng.log_uniform(1e4, 1e7) };
+    }
+    let start: Vec<f64> = (0..dim)
+        .map(|_| match family {
+            7 => rng.uniform(0.1, 0.9),
+            9 => rng.log_uniform(0.1, 2.0),
+            _ => rng.normal() * 0.8 + if family == 1 || family == 2 { 0.6 } else { 0.0 },
+        })
+        .collect();
     let delta = rng.uniform(0.55, 0.95);
     let seed = rng.next();
     let warm = rng.range(0, 12) as usize;
@@ -332,10 +344,17 @@ where
     T: rand_distr::uniform::SampleUniform + num_traits::FromPrimitive,
 {
     let id = out.fresh_id("da");
-    let family = *rng.pick(&[0u64, 0, 0, 3, 3, 3, 4, 1]);
-    let dim0 = rng.range(1, 6) as usize;
+    // families 7 / 9: targets that are NaN outside their support (a NaN leaf must enter the statistic as 1, not as NaN)
+    let family = *rng.pick(&[0u64, 0, 0, 3, 3, 3, 4, 1, 7, 9]);
+    let dim0 = if matches!(family, 7 | 9) { rng.range(1, 2) as usize } else { rng.range(1, 6) as usize };
     let (target, dim) = random_target(rng, family, dim0);
-    let start: Vec<f64> = (0..dim).map(|_| rng.normal() * 0.8 + if family == 1 { 0.6 } else { 0.0 }).collect();
+    let start: Vec<f64> = (0..dim)
+        .map(|_| match family {
+            7 => rng.uniform(0.15, 0.85),
+            9 => rng.log_uniform(0.2, 2.0),
+            _ => rng.normal() * 0.8 + if family == 1 { 0.6 } else { 0.0 },
+        })
+        .collect();
     let delta = rng.uniform(0.5, 0.99);
     let seed = rng.next();
     let n_runs = rng.range(1, 3) as usize;
@@ -367,6 +386,7 @@ where
             let (m1, nd1, e1, eb1, hb1, mu1) = c.verif_adapt_state();
             let mut states = vec![format!("{m1} {} {} {} {}", tk(e1), tk(eb1), tk(hb1), tk(mu1))];
             let mut stats: Vec<f64> = vec![];
+            let mut emitted = 0;
             let mut frozen: Option<u64> = None;
             let size = (cc + d) as u64;
             if nd1 != *d || m1 != m0 {
@@ -399,6 +419,19 @@ where
                 let (m, nd, e, eb, hb, mu) = c.verif_adapt_state();
                 states.push(format!("{m} {} {} {} {}", tk(e), tk(eb), tk(hb), tk(mu)));
                 out.count("predicate_evaluations");
+                // the statistic that drives the adaptation is the mean of min(1, exp(energy change)) over the last
+                // doubling: a number in [0,1], also when leaves had NaN density — and so H-bar stays finite
+                let a = tr.alpha / tr.n_alpha as f64;
+                if !(a >= 0.0 && a <= 1.0) || !hb.to64().is_finite() {
+                    out.fail(&cid, "C04:statistic-not-in-unit-interval", "the acceptance statistic fed to dual averaging is not a number in [0,1] (or H-bar is not finite)", size,
+                        format!("m={m} alpha/n_alpha={a} h_bar={} target {}", hb.to64(), target.name()));
+                }
+                // the first transitions of every run are also replayed against the transition model (statistic included)
+                // (f64 rows of targets evaluated with bit-identical parameters only: C04's tolerances are tighter than C03's)
+                if emitted < 3 && tr.depth <= 8 && T::NAME == "f64" && target.exact_params() {
+                    emit_step::<T>(out, &format!("{cid}.t{m}"), "C04", &target, &tr, size);
+                    emitted += 1;
+                }
                 let ef = e.to64();
                 if !(ef.is_finite() && ef > 0.0) {
                     out.fail(&cid, "C04:step-size-not-positive-finite", "step size is not positive and finite", size, format!("m={m} eps={ef}"));
